@@ -2,7 +2,7 @@
 
 Complete enumeration of the opcode space: every first/second/fourth opcode byte
 under every prefix, four operand fillings, every additional-opcode setting, at
-0x8000 and at the four addresses next to the 64K boundary (Wrap 0/1).
+0x8000, at the four addresses next to the 64K boundary (Wrap 0/1) and at 0x0000.
 Observers: skool disassembler (disassembler.py), trace disassembler
 (traceutils), sna2ctl decoder (opcodes.decode), z80.get_timing, the four
 simulators, and the reference interpreter ref/z80ref as independent witness.
@@ -26,7 +26,7 @@ ASSUMPTIONS = [
 OPCODE_CFGS = ('', 'ALL', 'ED63', 'ED6B', 'ED70', 'ED71', 'IM', 'NEG', 'RETN', 'XYCB')
 GROUPS = ('main', 'CB', 'ED', 'DD', 'FD', 'DDCB', 'FDCB')
 FILLS = ((0x12, 0x34, 0x56), (0xFB, 0x80, 0xC9), (0x80, 0x7F, 0xFF), (0x7F, 0x81, 0x00))      # incl. the extreme displacements -128 and +127
-ADDRS = (0x8000, 0xFFFC, 0xFFFD, 0xFFFE, 0xFFFF)
+ADDRS = (0x8000, 0xFFFC, 0xFFFD, 0xFFFE, 0xFFFF, 0x0000)
 
 # three CPU states that between them take both outcomes of every conditional /
 # repeating instruction
@@ -197,7 +197,7 @@ def _check(e, seq, a, snap, traceutils, opcodes, z80, case):
             smem[(a + k) & 0xFFFF] = b
         try:
             for st, (s, z) in zip(STATES, refs):
-                simdrv.set_regs(regs, dict(BASE, pc=a, **st))
+                simdrv.set_regs(regs, dict(BASE, pc=(a + 0x1235) & 0xFFFF, **st))      # run(start) must set PC itself, also for start=0
                 for r in range(16, 24):
                     regs[r] = 0
                 regs[simdrv.MEMPTR] = 0
